@@ -82,7 +82,7 @@ def _parts(x, conv="s"):
     if t is str:
         return [Lit(x)] if x else []
     if t is bytes or t is bytearray:
-        return [Lit(bytes(x).decode("latin-1"))] if x else []
+        return [Lit(bytes(x).decode("utf-8", "surrogateescape"))] if x else []
     if isinstance(x, SymInt):
         if z3.is_int_value(x.e):
             return [Lit(str(x.e.as_long()))]
@@ -229,7 +229,7 @@ class TStr:
                 ne = self.nonempty()
                 return (not ne) if isinstance(ne, bool) else core.sym_not(ne)
             if all(isinstance(p, Lit) for p in self.parts):
-                return "".join(p.t for p in self.parts) == (o.decode("latin-1") if isinstance(o, bytes) else o)
+                return "".join(p.t for p in self.parts) == (o.decode("utf-8", "surrogateescape") if isinstance(o, bytes) else o)
             raise EngineLimit("== between a symbolic string and a non-empty literal")
         if isinstance(o, TStr):
             if o is self:
@@ -247,8 +247,86 @@ class TStr:
     def __iter__(self):
         raise EngineLimit("iteration over a symbolic string")
 
+    # -- slicing: only at positions that are provably inside literal text at either end
+    def _blen(self, text):
+        return len(text.encode()) if self.b else len(text)
+
+    def _cut_left(self, k):
+        """parts after dropping the first k characters (k must fall inside leading literals)"""
+        parts = list(self.parts)
+        while k > 0:
+            if not parts or not isinstance(parts[0], Lit):
+                raise EngineLimit("slice start inside a symbolic part")
+            t = parts[0].t
+            if self.b and not t[: min(k, len(t))].isascii():
+                raise EngineLimit("slice inside non-ASCII text of a byte string")
+            if len(t) <= k:
+                k -= len(t)
+                parts.pop(0)
+            else:
+                parts[0] = Lit(t[k:])
+                k = 0
+        return parts
+
+    def _cut_right(self, parts, k):
+        parts = list(parts)
+        while k > 0:
+            if not parts or not isinstance(parts[-1], Lit):
+                raise EngineLimit("slice end inside a symbolic part")
+            t = parts[-1].t
+            if self.b and not t[-min(k, len(t)) :].isascii():
+                raise EngineLimit("slice inside non-ASCII text of a byte string")
+            if len(t) <= k:
+                k -= len(t)
+                parts.pop()
+            else:
+                parts[-1] = Lit(t[:-k])
+                k = 0
+        return parts
+
     def __getitem__(self, i):
-        raise EngineLimit("indexing/slicing a symbolic string")
+        if not isinstance(i, slice) or i.step not in (None, 1):
+            raise EngineLimit("indexing a symbolic string")
+        start, stop = i.start, i.stop
+        if isinstance(stop, TPos):
+            if stop.s is not self or start not in (None, 0):
+                raise EngineLimit("foreign string position")
+            parts = self.parts[: stop.part] + ([Lit(self.parts[stop.part].t[: stop.off])] if stop.off else [])
+            return TStr(parts, self.b)
+        if isinstance(start, TPos):
+            if start.s is not self or stop is not None:
+                raise EngineLimit("foreign string position")
+            p = self.parts[start.part]
+            return TStr(([Lit(p.t[start.off :])] if isinstance(p, Lit) else [p]) + self.parts[start.part + 1 :], self.b)
+        if isinstance(start, Sym) or isinstance(stop, Sym):
+            raise EngineLimit("symbolic slice bounds on a symbolic string")
+        if (start is not None and start < 0) or (stop is not None and stop >= 0):
+            raise EngineLimit("unsupported slice shape on a symbolic string")
+        parts = self._cut_left(start or 0)
+        if stop is not None:
+            parts = self._cut_right(parts, -stop)
+        return TStr(parts, self.b)
+
+    def _find(self, sub, last):
+        sub = self._cs(sub)
+        if not isinstance(sub, str) or len(sub) != 1 or sub.isdigit():
+            raise EngineLimit("index()/rindex() of a multi-character or digit pattern")
+        order = range(len(self.parts) - 1, -1, -1) if last else range(len(self.parts))
+        for k in order:
+            p = self.parts[k]
+            if isinstance(p, Lit):
+                j = p.t.rfind(sub) if last else p.t.find(sub)
+                if j >= 0:
+                    return TPos(self, k, j)
+            elif isinstance(p, Rep):
+                raise EngineLimit("index()/rindex() across a repetition")
+        raise ValueError("subsection not found")
+
+    def rindex(self, sub):
+        return self._find(sub, True)
+
+    def index(self, sub):
+        return self._find(sub, False)
 
     def __contains__(self, x):
         if isinstance(x, (str, bytes)) and len(x) == 1:
@@ -266,7 +344,7 @@ class TStr:
         if isinstance(x, TStr):
             return x
         if isinstance(x, (bytes, bytearray)):
-            return x.decode("latin-1")
+            return x.decode("utf-8", "surrogateescape")
         return x
 
     def replace(self, old, new, count=-1):
@@ -376,7 +454,7 @@ class TStr:
 
     def concrete(self):
         s = "".join(p.t for p in self.parts)
-        return s.encode("latin-1") if self.b else s
+        return s.encode("utf-8", "surrogateescape") if self.b else s
 
     def sx_eval(self, m):
         """Concrete string under a model (payload bytes become 'A')."""
@@ -453,7 +531,7 @@ def fmt_mod(template, args):
                 else:
                     raise EngineLimit(f"%{conv} with a symbolic argument")
             else:
-                piece = (("%" + mo.group(0)[1:]).encode("latin-1") % (a,)).decode("latin-1") if b else ("%" + mo.group(0)[1:]) % (a,)
+                piece = (("%" + mo.group(0)[1:]).encode() % (a,)).decode("utf-8", "surrogateescape") if b else ("%" + mo.group(0)[1:]) % (a,)
                 out.append(Lit(piece))
         if pos < len(p.t):
             rest = p.t[pos:]
@@ -508,6 +586,23 @@ def sx_fstr(*items):
         else:
             out.append(Lit(it))
     return maybe_concrete(TStr(out))
+
+
+class TPos:
+    """A position inside a TStr (result of index()/rindex()): part number + offset in that literal."""
+
+    __slots__ = ("s", "part", "off")
+
+    def __init__(self, s, part, off):
+        self.s, self.part, self.off = s, part, off
+
+    def __add__(self, k):
+        if type(k) is not int or k < 0:
+            raise EngineLimit("arithmetic on a string position")
+        p = self.s.parts[self.part]
+        if self.off + k > len(p.t):
+            raise EngineLimit("string position moved out of its literal")
+        return TPos(self.s, self.part, self.off + k)
 
 
 class SymPos:
